@@ -347,6 +347,29 @@ int main(int argc, char** argv) {
 			all_engines(P, (pi & 1) != 0, 1 + (pi % 2), rng.below(4), true, "oracle");
 		}
 	}
+	else if (part == "sweep") { // every instruction kind x {src = dst, src != dst} x immediates around every sign / size boundary, packed into programs run for one iteration (oracle)
+		static const uint8_t kinds[] = { 0, 16, 23, 39, 46, 62, 66, 70, 71, 75, 76, 84, 86, 101, 106, 114, 116, 120, 124, 140, 145, 161, 166, 172, 204, 208, 214, 239, 240 };
+		static const uint32_t imms[] = { 0, 1, 2, 3, 0x3f, 0x40, 0x7e, 0x7f, 0x80, 0x81, 0xfe, 0xff, 0x100, 0x101, 0x7fff, 0x8000, 0xffff, 0x10000, 0x7fffff, 0x800000, 0x7ffffffe, 0x7fffffff,
+			0x80000000u, 0x80000001u, 0xffffff7fu, 0xffffff80u, 0xffffff81u, 0xffffffffu, 0xfffffffeu, 0xffff8000u, 0xffff7fffu, 0xffff0000u, 0x00200000u, 0x001fffffu, 0x00003ff8u };
+		struct Item { uint8_t op; bool same; uint32_t imm; };
+		std::vector<Item> items;
+		for (uint8_t k : kinds) for (int same = 0; same < 2; ++same) for (uint32_t im : imms) items.push_back(Item{ k, same != 0, im });
+		// shuffle deterministically so that the kinds are mixed within a program
+		for (size_t i = items.size(); i > 1; --i) std::swap(items[i - 1], items[rng.below((uint32_t)i)]);
+		size_t pos = 0; int pi = 0;
+		while (pos < items.size()) {
+			bool v2 = (pi & 1) != 0; int size = v2 ? 384 : 256;
+			rng.fill(P.buf, 128); nop_fill(P, rng);
+			for (int i = 0; i < size && pos < items.size(); ++i, ++pos) {
+				const Item& it = items[pos];
+				uint8_t dst = (uint8_t)rng.next(), src = (uint8_t)rng.next();
+				if (it.same) src = (uint8_t)((dst & 7) | (src & 0xf8)); else if ((src & 7) == (dst & 7)) src = (uint8_t)((src & 0xf8) | ((dst + 1 + rng.below(7)) & 7));
+				put(P, i, (uint8_t)(it.op + (it.op == 214 ? rng.below(25) : 0)), dst, src, (uint8_t)rng.next(), it.imm);
+			}
+			all_engines(P, v2, 1, rng.below(4), true, "oracle");
+			++pi;
+		}
+	}
 	else if (part == "light") { // light mode: interpreter vs JIT over a real cache, configuration blocks with directed dataset offsets (in items: 0, 1, 127, 128, 129, 255, 256, ..., maximum)
 		randomx_cache* cache = randomx_alloc_cache(RANDOMX_FLAG_JIT);
 		std::vector<uint8_t> key = rng.bytes(1 + rng.below(60));
